@@ -12,9 +12,12 @@ import RedisVerif.Model.Codec
     S <n> {<ts> <hex>}*          → segment image written by the model (`none` for the empty batch)
     IS <hex>                     → set base segment image; read it
     st <len> | sx <pos> <val>    → read the truncated / byte-substituted base segment
+    sw <pos> <hex> | sta <len> <hex>   → bytes written over pos.. (clipped) / cut to len then bytes appended
+    cw <pos> <hex> | cta <len> <hex>   → the same for the base checkpoint
     C <k> <t> <l> <hex>          → checkpoint image written by the model
     IC <hex>                     → set base checkpoint image; read it
     ct <len> | cx <pos> <val> | ca <hex>   → read the truncated / substituted / extended base checkpoint
+    g <variant> <len>            → the round-trip law of the gossip codec ("roundtrip ok")
     W <ts> <hex>                 → encoded WAL entry for the payload (from_delta + encode)
     wd <hex>                     → WalEntry::decode
 -/
@@ -57,6 +60,10 @@ def step (s : St) (line : String) : St × String :=
   match tokens line with
   | ["V", v, k] => ({ s with fmt := if v == "1" then .v1 else .v2, strict := k != "0" },
       s!"format {if v == "1" then 1 else 2} strict {if k != "0" then 1 else 0}")
+  | "g" :: _ =>
+    -- gossip codec instance (`Codec.gossip`): serde_json itself is not modelled; the line states the
+    -- law `de (ser m) = some m` and the implementation's answer is compared with it
+    (s, "roundtrip ok")
   | "S" :: rest =>
     let p : P (List (Nat × Bytes)) := do
       let n ← nat
@@ -78,6 +85,22 @@ def step (s : St) (line : String) : St × String :=
     (match l.toNat? with
     | some n => (s, showSeg s.segPayloads (readSeg s.strict (s.seg.take n)))
     | none => (s, "bad-op"))
+  | ["sw", p, h] =>
+    (match p.toNat?, bytesTok.run [h] with
+    | some p, some (b, _) => (s, showSeg s.segPayloads (readSeg s.strict (C10.overwrite s.seg p b)))
+    | _, _ => (s, "bad-op"))
+  | ["sta", l, h] =>
+    (match l.toNat?, bytesTok.run [h] with
+    | some l, some (b, _) => (s, showSeg s.segPayloads (readSeg s.strict (s.seg.take l ++ b)))
+    | _, _ => (s, "bad-op"))
+  | ["cw", p, h] =>
+    (match p.toNat?, bytesTok.run [h] with
+    | some p, some (b, _) => (s, showChk s.chkPayload (readChk (C10.overwrite s.chk p b)))
+    | _, _ => (s, "bad-op"))
+  | ["cta", l, h] =>
+    (match l.toNat?, bytesTok.run [h] with
+    | some l, some (b, _) => (s, showChk s.chkPayload (readChk (s.chk.take l ++ b)))
+    | _, _ => (s, "bad-op"))
   | ["sx", p, v] =>
     (match p.toNat?, v.toNat? with
     | some p, some v => (s, showSeg s.segPayloads (readSeg s.strict (s.seg.set p v)))
